@@ -71,6 +71,8 @@ CONSTANTS
   ScionMacErrPanics,      \* server: panic(err) when spao.ComputeAuthCMAC fails (it does for unassigned path types)
   ScionTsOptUnchecked,    \* client: option 253 is parsed as control-message bytes (udp.TimestampFromOOBData): its panic
                           \* sites and an unchecked re-slice are reachable from the network
+  CmsgLenUnchecked,       \* udp.TimestampFromOOBData without the lower bound on cmsg_len: a first control message of
+                          \* declared length 0 that is no timestamp message does not advance the walk
   ScionTsOptTrusted       \* client: the receive time taken from option 253 is not checked against the transmit time:
                           \* ntp.ValidateResponseTimestamps panics ("unexpected system clock behavior") when t3 < t0
 
@@ -92,7 +94,7 @@ G0 == [sz |-> "na", src |-> "na", fs |-> << >>, end |-> "na", ck |-> "na",
        ml |-> "na", mt |-> "na", seq |-> "na", tlv |-> "na",
        \* SCION
        cp |-> "na", sc |-> "na", da |-> "na", sa |-> "na", ia |-> "na", pt |-> "na", ext |-> "na",
-       eo |-> "na", l4 |-> "na", ul |-> "na", dp |-> "na"]
+       eo |-> "na", l4 |-> "na", ul |-> "na", dp |-> "na", pl |-> "na", tr |-> "na"]
 
 C0(kind) == [kind |-> kind, auth |-> "na", pre |-> "na", ke |-> << >>, kt |-> "na",
              rs |-> << >>, out |-> "na", site |-> "na"]
@@ -608,7 +610,18 @@ CsCliSucc(s, sc) ==
 (*        maximum of 1024 bytes)                                           *)
 (*   l4 : udp | udptrunc (< 8 bytes) | scmpecho | scmptr | scmpother |     *)
 (*        scmptrunc | unk (another protocol number)                        *)
-(*   ul : UDP Length  ok | big (> datagram) | small (8)                    *)
+(*   ul : UDP Length against the UDP bytes present  ok | zero (jumbogram:  *)
+(*        the whole rest is payload) | lt8 (1..7: decode error) | small    *)
+(*        (8 <= Length < present: the payload is cut) | bigudp (> the UDP  *)
+(*        bytes, <= the datagram) | big (> the datagram) | max (65535)     *)
+(*   pl : SCION PayloadLen  ok | small | big (> the bytes present) | max   *)
+(*        (65535) -- no decision of the code depends on it                 *)
+(*   tr : the datagram itself  ok | inpl (cut inside the UDP payload; the  *)
+(*        length fields say what was sent)                                 *)
+(*   eo also: ts0o ts0t tsso tsst -- option 253 whose first control        *)
+(*        message has cmsg_len 0 resp. 1..15 and a level/type that is      *)
+(*        another (o) / a timestamp (t) message, data >= 16 bytes; with    *)
+(*        suffix f a well-formed message follows                           *)
 (*   dp : UDP destination port  ntp (the server's) | endhost (30041) |     *)
 (*        other;   cp: the listener it arrives on  srv | eh                *)
 (***************************************************************************)
@@ -629,10 +642,12 @@ ExtDom == {"none", "hbh", "e2e", "hbhe2e", "e2ehbh", "e2e2", "hbh2", "exttrunc"}
 ExtHasE2E(x) == x \in {"e2e", "hbhe2e"}     \* decoded[len-2] is the e2e extension
 EoAuthBadLen == {"auth0", "auth27", "auth29"}
 EoTsPanics == {"ts2", "tstail"}
+EoCmsgShort == {"ts0o", "ts0of", "ts0t", "ts0tf", "tsso", "tssof", "tsst", "tsstf"}
+EoAuthOk == {"auth28cok", "auth28sok"}
 EoSrv == {"none", "optbeyond", "auth28c", "auth28cok", "auth28s", "auth28x", "ts", "full"} \cup
          (IF Wide THEN EoAuthBadLen ELSE {"auth27", "auth0"})
 EoCli == {"none", "optbeyond", "auth28s", "auth28sok", "auth28c", "auth28x", "auth27", "ts", "tsold", "tsnew",
-          "tsshort", "tslen"} \cup EoTsPanics \cup (IF Wide THEN EoAuthBadLen ELSE {})
+          "tsshort", "tslen"} \cup EoTsPanics \cup EoCmsgShort \cup (IF Wide THEN EoAuthBadLen ELSE {})
 L4Dom == {"udp", "udptrunc", "scmpecho", "scmptr", "scmpother", "scmptrunc", "unk"}
 
 \* t-wise constraint: a SCION datagram has the dimensions listener/port, addresses, path, extensions,
@@ -642,42 +657,60 @@ L4Dom == {"udp", "udptrunc", "scmpecho", "scmptr", "scmpother", "scmptrunc", "un
 B2N(b) == IF b THEN 1 ELSE 0
 DevCount(g) ==
   B2N(g.cp = "eh" \/ g.dp \notin {"na", "ntp"}) + B2N(g.da \notin {"na", "t0l4"} \/ g.sa \notin {"na", "t0l4"}) +
-  B2N(g.pt \notin {"na", "empty"}) + B2N(g.ext \notin {"na", "none"}) + B2N(g.l4 \notin {"na", "udp"}) +
+  B2N(g.pt \notin {"na", "empty"}) + B2N(g.l4 \notin {"na", "udp"}) +
+  \* there are TWO canonical datagrams: the plain one, and the authenticated one (an e2e extension whose
+  \* only option is an authenticator with the expected SPI and algorithm and a verifying MAC under the
+  \* key both sides derive) -- the latter is no deviation
+  B2N(g.ext \notin {"na", "none"} /\ ~(g.ext = "e2e" /\ g.eo \in {"na"} \cup EoAuthOk)) +
+  B2N(g.pl \notin {"na", "ok"}) + B2N(g.tr \notin {"na", "ok"}) +
   B2N(g.ul \notin {"na", "ok"}) + B2N(g.sz \notin {"na", "s48"}) + B2N(g.b0 \notin {"na", "v4c"}) +
   B2N(g.ia \notin {"na", "ok"}) + B2N(g.org \notin {"na", "match"}) + B2N(g.meta \notin {"na", "ok"}) +
   B2N(g.ts \notin {"na", "ok"}) + B2N(g.sc \notin {"na", "ok"})
-\* `same`: the field belongs to a dimension that already deviates
-Lim(g, Dom, canon, same) == IF DevCount(g) >= ScDev /\ ~same THEN Dom \cap {canon} ELSE Dom
+\* `canon`: the canonical values of the field; `same`: the field belongs to a dimension that already deviates
+Lim(g, Dom, canon, same) == IF DevCount(g) >= ScDev /\ ~same THEN Dom \cap canon ELSE Dom
+
+UlDom == {"ok", "zero", "lt8", "small", "bigudp", "big", "max"}
+UlBeyond == {"big", "max"}            \* larger than the whole datagram
+PlDom == {"ok", "small", "big", "max"}
+\* a MAC computed by the sender over what it sent verifies only if the receiver locates the same bytes
+MacBytesDiffer(g) == g.ul \in {"zero", "small", "bigudp"} \/ g.tr = "inpl"
+PayloadCut(g) == g.ul = "small" \/ g.tr = "inpl"
 
 \* slayers decoding up to the validType check; shared by server and client.
 \* One reveal per step; `after` is the pc once the last layer is known to be UDP or SCMP.
-ScDecode(s, sc, eoDom, retry, strictPath, after) ==
+ScDecode(s, sc, eoDom, eoCanon, retry, strictPath, after) ==
   LET g == s.g IN
   IF g.sc = "na" THEN
     {IF z # "ok" THEN Fail([s EXCEPT !.g.sc = z], "slayers.SCION.DecodeFromBytes", retry) ELSE [s EXCEPT !.g.sc = z]
-     : z \in PickG(s, sc, "sc", Lim(g, {"cmnshort", "addrshort", "hdrneg", "hdrbig", "ok"}, "ok", FALSE))}
-  ELSE IF g.da = "na" THEN {[s EXCEPT !.g.da = a] : a \in PickG(s, sc, "da", Lim(g, AddrDom, "t0l4", FALSE))}
+     : z \in PickG(s, sc, "sc", Lim(g, {"cmnshort", "addrshort", "hdrneg", "hdrbig", "ok"}, {"ok"}, FALSE))}
+  ELSE IF g.pl = "na" THEN {[s EXCEPT !.g.pl = v] : v \in PickG(s, sc, "pl", Lim(g, PlDom, {"ok"}, FALSE))}
+  ELSE IF g.da = "na" THEN {[s EXCEPT !.g.da = a] : a \in PickG(s, sc, "da", Lim(g, AddrDom, {"t0l4"}, FALSE))}
   \* pairwise: all 16 type/length values of one address next to a plain IPv4 one, all length pairs
-  ELSE IF g.sa = "na" THEN {[s EXCEPT !.g.sa = a] : a \in PickG(s, sc, "sa", Lim(g, IF g.da = "t0l4" THEN AddrDom ELSE AddrT0, "t0l4", g.da # "t0l4"))}
+  ELSE IF g.sa = "na" THEN {[s EXCEPT !.g.sa = a] : a \in PickG(s, sc, "sa", Lim(g, IF g.da = "t0l4" THEN AddrDom ELSE AddrT0, {"t0l4"}, g.da # "t0l4"))}
   ELSE IF g.pt = "na" THEN
     \* the server's layer recycles path objects and keeps unassigned path types as raw bytes; the
     \* client's does not (path.NewPath: "unsupported path")
     {IF p \in PtDecodeErr \/ (strictPath /\ p \in {"raw4", "raw255"})
      THEN Fail([s EXCEPT !.g.pt = p], "slayers.path.DecodeFromBytes", retry) ELSE [s EXCEPT !.g.pt = p]
-     : p \in PickG(s, sc, "pt", Lim(g, PtDom, "empty", FALSE))}
+     : p \in PickG(s, sc, "pt", Lim(g, PtDom, {"empty"}, FALSE))}
   ELSE IF g.ext = "na" THEN
     {IF x = "exttrunc" THEN Fail([s EXCEPT !.g.ext = x], "slayers.extn.DecodeFromBytes", retry)
      ELSE IF x \in {"e2ehbh", "e2e2", "hbh2"} THEN Fail([s EXCEPT !.g.ext = x], "validType", retry)
      ELSE [s EXCEPT !.g.ext = x]
-     : x \in PickG(s, sc, "ext", Lim(g, ExtDom, "none", FALSE))}
+     : x \in PickG(s, sc, "ext", Lim(g, ExtDom, IF eoCanon = {} THEN {"none"} ELSE {"none", "e2e"}, FALSE))}
   ELSE IF g.eo = "na" /\ g.ext \in {"e2e", "hbhe2e"} THEN
     {IF o = "optbeyond" THEN Fail([s EXCEPT !.g.eo = o], "slayers.extn.DecodeFromBytes", retry) ELSE [s EXCEPT !.g.eo = o]
-     : o \in PickG(s, sc, "eo", eoDom)}
-  ELSE
+     : o \in PickG(s, sc, "eo", Lim(g, eoDom, eoCanon, g.ext = "hbhe2e"))}
+  ELSE IF g.l4 = "na" THEN
     {IF l \in {"udptrunc", "scmptrunc"} THEN Fail([s EXCEPT !.g.l4 = l], "slayers.l4.DecodeFromBytes", retry)
      ELSE IF l = "unk" THEN Fail([s EXCEPT !.g.l4 = l], "validType", retry)
+     ELSE IF l = "udp" THEN [s EXCEPT !.g.l4 = l]
      ELSE [s EXCEPT !.g.l4 = l, !.pc = after]
-     : l \in PickG(s, sc, "l4", Lim(g, L4Dom, "udp", FALSE))}
+     : l \in PickG(s, sc, "l4", Lim(g, L4Dom, {"udp"}, FALSE))}
+  ELSE IF g.ul = "na" THEN      \* slayers.UDP: Length 1..7 is an error, 0 a jumbogram, > data: "truncated", accepted
+    {IF u = "lt8" THEN Fail([s EXCEPT !.g.ul = u], "slayers.l4.DecodeFromBytes", retry) ELSE [s EXCEPT !.g.ul = u]
+     : u \in PickG(s, sc, "ul", Lim(g, UlDom, {"ok"}, FALSE))}
+  ELSE {[s EXCEPT !.g.tr = v, !.pc = after] : v \in PickG(s, sc, "tr", Lim(g, {"ok", "inpl"}, {"ok"}, FALSE))}
 
 (***************************************************************************)
 (* scsrv                                                                   *)
@@ -690,41 +723,41 @@ ScSrvSucc(s, sc) ==
   LET g == s.g IN
   CASE s.pc = "Idle" ->           \* which listener: the server port or the end-host port 30041
         {[s EXCEPT !.g.cp = p, !.pc = "Parsed"] : p \in PickG(s, sc, "cp", {"srv", "eh"})}
-    [] s.pc = "Parsed" -> ScDecode(s, sc, EoSrv, FALSE, FALSE, "Classified")
+    [] s.pc = "Parsed" -> ScDecode(s, sc, EoSrv, {"auth28cok"}, FALSE, FALSE, "Classified")
     [] s.pc = "Classified" ->
         IF g.l4 \in {"scmpecho", "scmptr"} THEN {ScReverse(s, Serve(s))}     \* SCMP responder
         ELSE IF g.l4 = "scmpother" THEN {Fail(s, "scmp:type", FALSE)}
-        ELSE UNION {                                                          \* UDP
-          IF u = "big" THEN {Fail([s EXCEPT !.g.ul = u], "udp:length", FALSE)}
-          \* netip.AddrFromSlice(RawSrcAddr / RawDstAddr)
-          ELSE IF ~Is4or16(g.sa) \/ ~Is4or16(g.da)
-            THEN {IF ScionAddrLenUnchecked THEN Die([s EXCEPT !.g.ul = u], "netip.AddrFromSlice")
-                                           ELSE Fail([s EXCEPT !.g.ul = u], "netip.AddrFromSlice", FALSE)}
-          ELSE {LET s1 == [s EXCEPT !.g.ul = u, !.g.dp = d] IN
-                IF d # "ntp"
-                THEN (IF g.cp = "srv" \/ d = "endhost" THEN Fail(s1, "forward:port", FALSE)
-                      \* end-host forwarder: the datagram goes to (destination host, destination port)
-                      ELSE IF Is4(g.da) THEN Serve(s1) ELSE Fail(s1, "forward:write", FALSE))
-                ELSE [s1 EXCEPT !.pc = "Authenticated"]
-                : d \in PickG(s, sc, "dp", Lim([g EXCEPT !.ul = u], {"ntp", "endhost", "other"}, "ntp", g.cp = "eh"))}
-          : u \in PickG(s, sc, "ul", Lim(g, {"ok", "big", "small"}, "ok", FALSE))}
+        \* UDP: if len(buf) < int(udpLayer.Length) -- what keeps buf[len(buf)-Length:] below in bounds
+        ELSE IF g.ul \in UlBeyond THEN {Fail(s, "udp:length", FALSE)}
+        \* netip.AddrFromSlice(RawSrcAddr / RawDstAddr)
+        ELSE IF ~Is4or16(g.sa) \/ ~Is4or16(g.da)
+          THEN {IF ScionAddrLenUnchecked THEN Die(s, "netip.AddrFromSlice") ELSE Fail(s, "netip.AddrFromSlice", FALSE)}
+        ELSE {LET s1 == [s EXCEPT !.g.dp = d] IN
+              IF d # "ntp"
+              THEN (IF g.cp = "srv" \/ d = "endhost" THEN Fail(s1, "forward:port", FALSE)
+                    \* end-host forwarder: the datagram goes to (destination host, destination port)
+                    ELSE IF Is4(g.da) THEN Serve(s1) ELSE Fail(s1, "forward:write", FALSE))
+              ELSE [s1 EXCEPT !.pc = "Authenticated"]
+              : d \in PickG(s, sc, "dp", Lim(g, {"ntp", "endhost", "other"}, {"ntp"}, g.cp = "eh"))}
     [] s.pc = "Authenticated" ->  \* e2eLayer.FindOption(OptTypeAuthenticator), PacketAuthOptMetadata, CMAC
         IF ExtHasE2E(g.ext) /\ g.eo \in EoAuthBadLen
         THEN {IF ScionAuthOptUnchecked THEN Die(s, "scion.PacketAuthOptMetadata") ELSE Fail(s, "scion.PacketAuthOptMetadata", FALSE)}
         \* client SPI and AES-CMAC: the MAC is computed; spao cannot serialise a path of unassigned type
         ELSE IF ExtHasE2E(g.ext) /\ g.eo \in {"auth28c", "auth28cok"} /\ g.pt \in {"raw4", "raw255"}
         THEN {IF ScionMacErrPanics THEN Die(s, "spao.ComputeAuthCMAC") ELSE Fail(s, "spao.ComputeAuthCMAC", FALSE)}
-        ELSE IF ExtHasE2E(g.ext) /\ g.eo = "auth28c" THEN {Fail(s, "spao:mac", FALSE)}
+        \* ... over buf[len(buf)-Length:]: other bytes than the sender's when the lengths disagree
+        ELSE IF ExtHasE2E(g.ext) /\ (g.eo = "auth28c" \/ (g.eo = "auth28cok" /\ MacBytesDiffer(g)))
+        THEN {Fail(s, "spao:mac", FALSE)}
         ELSE {[s EXCEPT !.pc = "Decoded"]}
     [] s.pc = "Decoded" ->        \* ntp.DecodePacket, ntp.ValidateRequest
-        \* (slayers.UDP cuts the payload at the Length field: Length = 8 leaves nothing)
-        IF g.ul = "small" THEN {Fail(s, "ntp.DecodePacket:size", FALSE)}
+        \* (slayers.UDP cuts the payload at the Length field resp. at the end of the datagram)
+        IF PayloadCut(g) THEN {Fail(s, "ntp.DecodePacket:size", FALSE)}
         ELSE UNION {
           IF z = "s47" THEN {Fail([s EXCEPT !.g.sz = z], "ntp.DecodePacket:size", FALSE)}
           ELSE {IF b \in B0Bad THEN Fail([s EXCEPT !.g.sz = z, !.g.b0 = b], "ntp.ValidateRequest", FALSE)
                                 ELSE [s EXCEPT !.g.sz = z, !.g.b0 = b, !.pc = "Validated"]
-                : b \in PickG(s, sc, "b0", Lim([g EXCEPT !.sz = z], {"v4c", "v4srv"}, "v4c", FALSE))}
-          : z \in PickG(s, sc, "sz", Lim(g, {"s47", "s48"}, "s48", FALSE))}
+                : b \in PickG(s, sc, "b0", Lim([g EXCEPT !.sz = z], {"v4c", "v4srv"}, {"v4c"}, FALSE))}
+          : z \in PickG(s, sc, "sz", Lim(g, {"s47", "s48"}, {"s48"}, FALSE))}
     [] s.pc = "Validated" -> {ScReverse(s, [s EXCEPT !.pc = "Handled"])}   \* handleRequest, reply path
     [] s.pc = "Handled" -> {[s EXCEPT !.pc = "Sent"]}
     [] s.pc = "Sent" -> {Serve(s)}
@@ -744,32 +777,36 @@ ScCliSucc(s, sc) ==
                        ELSE [s EXCEPT !.g.sz = z, !.pc = "Parsed"]
          : z \in PickG(s, sc, "sz", Sub({"none", "s47", "s48"}, {"s48"}, full))}   \* (none, s47: one deviation)
     [] s.pc = "Parsed" ->
-        IF full THEN ScDecode(s, sc, EoCli, TRUE, TRUE, "Classified")
-        ELSE {[s EXCEPT !.g.sc = "ok", !.g.da = "t0l4", !.g.sa = "t0l4", !.g.pt = "empty", !.g.ext = "none",
-                        !.g.l4 = "udp", !.pc = "Classified"]}
+        IF full THEN ScDecode(s, sc, EoCli, IF c.auth = "yes" THEN {"auth28sok"} ELSE {}, TRUE, TRUE, "Classified")
+        ELSE {[s EXCEPT !.g.sc = "ok", !.g.pl = "ok", !.g.da = "t0l4", !.g.sa = "t0l4", !.g.pt = "empty", !.g.ext = "none",
+                        !.g.l4 = "udp", !.g.ul = "ok", !.g.tr = "ok", !.pc = "Classified"]}
     [] s.pc = "Classified" ->     \* SCMP; UDP length; validSrc, validDst (both evaluated)
         IF g.l4 # "udp" THEN {Fail(s, "scmp", TRUE)}
-        ELSE UNION {
-          IF u = "big" THEN {Fail([s EXCEPT !.g.ul = u], "udp:length", TRUE)}
-          ELSE {LET s1 == [s EXCEPT !.g.ul = u, !.g.ia = i] IN
-                \* SrcIA == remote IA && compareIPs(...): the comparison runs only when the IA matches
-                IF (i # "src" /\ ~Is4or16(g.sa)) \/ (i # "dst" /\ ~Is4or16(g.da))
-                THEN (IF ScionAddrLenUnchecked THEN Die(s1, "client.compareIPs") ELSE Fail(s1, "client.compareIPs", TRUE))
-                \* an address of the right length that is not the peer's (every class but the plain IPv4 one)
-                ELSE IF i # "ok" \/ g.sa # "t0l4" \/ g.da # "t0l4" THEN Fail(s1, "address", TRUE)
-                ELSE [s1 EXCEPT !.pc = "Authenticated"]
-                : i \in PickG(s, sc, "ia", Sub(Lim([g EXCEPT !.ul = u], {"ok", "src", "dst"}, "ok", FALSE), {"ok"}, full))}
-          : u \in PickG(s, sc, "ul", Sub(Lim(g, {"ok", "big", "small"}, "ok", FALSE), {"ok"}, full))}
-    [] s.pc = "Authenticated" ->  \* option 253, then the authenticator
+        ELSE IF g.ul \in UlBeyond THEN {Fail(s, "udp:length", TRUE)}
+        ELSE {LET s1 == [s EXCEPT !.g.ia = i] IN
+              \* SrcIA == remote IA && compareIPs(...): the comparison runs only when the IA matches
+              IF (i # "src" /\ ~Is4or16(g.sa)) \/ (i # "dst" /\ ~Is4or16(g.da))
+              THEN (IF ScionAddrLenUnchecked THEN Die(s1, "client.compareIPs") ELSE Fail(s1, "client.compareIPs", TRUE))
+              \* an address of the right length that is not the peer's (every class but the plain IPv4 one)
+              ELSE IF i # "ok" \/ g.sa # "t0l4" \/ g.da # "t0l4" THEN Fail(s1, "address", TRUE)
+              ELSE [s1 EXCEPT !.pc = "Authenticated"]
+              : i \in PickG(s, sc, "ia", Sub(Lim(g, {"ok", "src", "dst"}, {"ok"}, FALSE), {"ok"}, full))}
+    [] s.pc = "Authenticated" ->  \* option 253 (udp.TimestampFromOOBData on its data), then the authenticator
         IF ~ExtHasE2E(g.ext) THEN {[s EXCEPT !.pc = "Decoded"]}
         ELSE IF g.eo \in EoTsPanics
           THEN {IF ScionTsOptUnchecked THEN Die(s, "udp.TimestampFromOOBData") ELSE [s EXCEPT !.pc = "Decoded"]}
+        \* the walk over the control messages advances by the aligned cmsg_len: a first message of declared
+        \* length 0 that is no timestamp message leaves it where it is (timestamp messages of a wrong length and
+        \* lengths 1..15, which advance by 8 or 16 bytes, end in an error or further down the data)
+        ELSE IF g.eo \in {"ts0o", "ts0of"} /\ CmsgLenUnchecked
+          THEN {Hang(s, "udp.TimestampFromOOBData:cmsglen0", FALSE)}
         ELSE IF c.auth = "yes" /\ g.eo \in EoAuthBadLen
           THEN {IF ScionAuthOptUnchecked THEN Die(s, "scion.PacketAuthOptMetadata") ELSE Fail(s, "scion.PacketAuthOptMetadata", TRUE)}
-        ELSE IF c.auth = "yes" /\ g.eo = "auth28s" THEN {Fail(s, "spao:mac", TRUE)}
+        ELSE IF c.auth = "yes" /\ (g.eo = "auth28s" \/ (g.eo = "auth28sok" /\ MacBytesDiffer(g)))
+          THEN {Fail(s, "spao:mac", TRUE)}
         ELSE {[s EXCEPT !.pc = "Decoded"]}
     [] s.pc = "Decoded" ->        \* ntp.DecodePacket, origin, metadata, timestamps
-        IF g.sz = "s47" \/ g.ul = "small" THEN {Fail(s, "ntp.DecodePacket:size", TRUE)}
+        IF g.sz = "s47" \/ PayloadCut(g) THEN {Fail(s, "ntp.DecodePacket:size", TRUE)}
         ELSE UNION {
           IF o = "other" THEN {Fail([s EXCEPT !.g.org = o], "origin", TRUE)}
           ELSE UNION {
@@ -780,9 +817,9 @@ ScCliSucc(s, sc) ==
               THEN {Die([s EXCEPT !.g.org = o, !.g.meta = m], "ntp.ValidateResponseTimestamps:panic")}
             ELSE {IF t = "neg" THEN Fail([s EXCEPT !.g.org = o, !.g.meta = m, !.g.ts = t], "ntp.ValidateResponseTimestamps", FALSE)
                                ELSE [s EXCEPT !.g.org = o, !.g.meta = m, !.g.ts = t, !.pc = "Validated"]
-                  : t \in PickG(s, sc, "ts", Sub(Lim([g EXCEPT !.org = o, !.meta = m], {"ok", "neg"}, "ok", FALSE), {"ok"}, full))}
-            : m \in PickG(s, sc, "meta", Sub(Lim([g EXCEPT !.org = o], {"ok", "li3", "str0"}, "ok", FALSE), {"ok"}, full))}
-          : o \in PickG(s, sc, "org", Sub(Lim(g, {"match", "other"}, "match", FALSE), {"match"}, full))}
+                  : t \in PickG(s, sc, "ts", Sub(Lim([g EXCEPT !.org = o, !.meta = m], {"ok", "neg"}, {"ok"}, FALSE), {"ok"}, full))}
+            : m \in PickG(s, sc, "meta", Sub(Lim([g EXCEPT !.org = o], {"ok", "li3", "str0"}, {"ok"}, FALSE), {"ok"}, full))}
+          : o \in PickG(s, sc, "org", Sub(Lim(g, {"match", "other"}, {"match"}, FALSE), {"match"}, full))}
     [] s.pc = "Validated" -> {[s EXCEPT !.pc = "Handled"]}
     [] s.pc = "Handled" -> {Serve(s)}
     [] OTHER -> {}
@@ -810,9 +847,9 @@ Sentinel(kind) ==
     [] kind = "kesrv" -> [C0(kind) EXCEPT !.pre = "tls", !.ke = <<"np", "aead">>, !.kt = "eom"]
     [] kind = "csptpsrv" -> [C0(kind) EXCEPT !.rs = <<[G0 EXCEPT !.sz = "min", !.ml = "len", !.mt = "sync319"]>>]
     [] kind = "scsrv" -> [C0(kind) EXCEPT !.rs = <<[G0 EXCEPT !.cp = "srv", !.sc = "ok", !.da = "t0l4", !.sa = "t0l4",
-          !.pt = "empty", !.ext = "none", !.l4 = "udp", !.ul = "ok", !.dp = "ntp", !.sz = "s48", !.b0 = "v4c"]>>]
+          !.pt = "empty", !.ext = "none", !.l4 = "udp", !.ul = "ok", !.pl = "ok", !.tr = "ok", !.dp = "ntp", !.sz = "s48", !.b0 = "v4c"]>>]
     [] kind = "sccli" -> [C0(kind) EXCEPT !.auth = "no", !.rs = <<[G0 EXCEPT !.sz = "s48", !.sc = "ok", !.da = "t0l4",
-          !.sa = "t0l4", !.pt = "empty", !.ext = "none", !.l4 = "udp", !.ul = "ok", !.ia = "ok", !.org = "match",
+          !.sa = "t0l4", !.pt = "empty", !.ext = "none", !.l4 = "udp", !.ul = "ok", !.pl = "ok", !.tr = "ok", !.ia = "ok", !.org = "match",
           !.meta = "ok", !.ts = "ok"]>>]
     [] kind = "csptpcli" -> [C0(kind) EXCEPT !.rs =
           <<[G0 EXCEPT !.sz = "min", !.ml = "len", !.seq = "match", !.mt = "sync", !.src = "ok", !.ts = "acc"],
@@ -873,6 +910,8 @@ NeverDead == alive
 \* finished (dropped, reported as an error, or answered) and the loop is back at its read
 Progress == (pc # "Idle") ~> (pc = "Idle")
 NoSpin == ~spin
+\* every iteration of a length-driven walk (extension fields, control messages) advances
+EveryIterationAdvances == ~spin
 \* the next well-formed request on the same socket is still answered
 SentinelServed == (sent = "queued") ~> (sent = "answered")
 SentinelNotLost == sent # "lost"
